@@ -89,6 +89,15 @@ Definition step_p (gs : list graph) (es : list engine) (q : query) : tok :=
       end
   | QEntry fn ch pa o => L [tres (sub_entry vf2b fn o (gnth gs ch) (gnth gs pa)); tN (entry_trace fn o (gnth gs ch) (gnth gs pa))]
   | QCtor r => tctor r
+  | QObj maps e i j =>
+      match i, j with
+      | Some i', Some j' =>
+          if maps then tnat (length (get_mappings_p (enth es e) (gnth gs i') (gnth gs j')))
+          else tbool (isomorphic_p (enth es e) (gnth gs i') (gnth gs j'))
+      | _, _ => L [tN 99; tN 1]
+      end
+  | QFgiT t1 t2 i j ud fa a b d =>
+      if N.eqb t1 t2 then (if fgi vf2b ud fa a b d (gnth gs i) (gnth gs j) then tbool true else tbool false) else tbool false
   end.
 
 Lemma pre_check_pure gs e hi pi c : cache_inv gs c ->
@@ -139,12 +148,19 @@ Qed.
 Lemma step_pure gs es q c : cache_inv gs c ->
   exists c', step vf2b enum gs es q c = (step_p gs es q, c') /\ cache_inv gs c'.
 Proof.
-  intros Hc. destruct q as [e i j|e h p|e h p|gm ch pa f ind nc ec names eattr|i j a b d|i j|i j ud fa a b d|fn ch pa o|r]; simpl.
+  intros Hc. destruct q as [e i j|e h p|e h p|gm ch pa f ind nc ec names eattr|i j a b d|i j|i j ud fa a b d|fn ch pa o|r|mp e [i|] [j|]|t1 t2 i j ud fa a b d]; simpl.
   - destruct (isomorphic_pure gs (enth es e) i j c Hc) as (c' & E & H'). rewrite E, (iso_trace_pure gs (enth es e) i j c Hc). exists c'. auto.
   - destruct (get_mappings_pure gs (enth es e) h p c Hc) as (c' & E & H'). rewrite E, (maps_trace_pure gs (enth es e) h p c Hc). exists c'. auto.
   - destruct (pre_check_pure gs (enth es e) h p c Hc) as (c' & E & H'). rewrite E. exists c'. auto.
   - exists c. auto.
   - exists c. auto.
+  - exists c. auto.
+  - exists c. auto.
+  - exists c. auto.
+  - exists c. auto.
+  - destruct mp.
+    + destruct (get_mappings_pure gs (enth es e) i j c Hc) as (c' & E & H'). rewrite E. exists c'. auto.
+    + destruct (isomorphic_pure gs (enth es e) i j c Hc) as (c' & E & H'). rewrite E. exists c'. auto.
   - exists c. auto.
   - exists c. auto.
   - exists c. auto.
